@@ -596,13 +596,15 @@ func c05GenTblOps(rt *rapid.T, label string, n int, ports [2]int, hc bool, concu
 
 // c05Env is the process-wide table rig: one BalTable per process, as in bfe.
 type c05Env struct {
-	tbl    *bfe_balance.BalTable
+	tblP   atomic.Pointer[bfe_balance.BalTable]
 	curCT  atomic.Pointer[bfe_route.ClusterTable]
 	hcOn   atomic.Bool
 	ports  [2]int
 	ln     net.Listener
 	basic0 *bfe_route.ClusterTable
 }
+
+func (e *c05Env) table() *bfe_balance.BalTable { return e.tblP.Load() }
 
 func (e *c05Env) fetch(cluster string) *cluster_conf.BackendCheck {
 	// same shape as BfeServer.GetCheckConf
@@ -644,7 +646,7 @@ func newC05Env(t *testing.T) *c05Env {
 	closed := ln2.Addr().(*net.TCPAddr).Port
 	ln2.Close()
 	e.ports = [2]int{port, closed}
-	e.tbl = bfe_balance.NewBalTable(e.fetch)
+	e.tblP.Store(bfe_balance.NewBalTable(e.fetch))
 	return e
 }
 
@@ -655,14 +657,14 @@ func (e *c05Env) emptyReload() error {
 		return fmt.Errorf("empty conf rejected: %v %v", err1, err2)
 	}
 	var err error
-	if p := ev.Try(func() { err = e.tbl.BalTableReload(gl, tl) }); p != nil {
+	if p := ev.Try(func() { err = e.table().BalTableReload(gl, tl) }); p != nil {
 		return fmt.Errorf("panic: %v", p)
 	}
 	return err
 }
 
 func (e *c05Env) pickBackend(cluster string, sub, idx int) *backend.BfeBackend {
-	bal, err := e.tbl.Lookup(cluster)
+	bal, err := e.table().Lookup(cluster)
 	if err != nil {
 		return nil
 	}
@@ -683,7 +685,7 @@ func (e *c05Env) tblStep(op *c05TblOp, sequential bool) *c05Failure {
 	case "bal":
 		var bal *bal_gslb.BalanceGslb
 		var err error
-		if p := ev.Try(func() { bal, err = e.tbl.Lookup(op.Cluster) }); p != nil {
+		if p := ev.Try(func() { bal, err = e.table().Lookup(op.Cluster) }); p != nil {
 			return &c05Failure{Key: "panic-table-lookup", Msg: fmt.Sprintf("Lookup panicked: %v", p)}
 		}
 		if err != nil {
@@ -727,12 +729,12 @@ func (e *c05Env) tblStep(op *c05TblOp, sequential bool) *c05Failure {
 		if op.reject {
 			return nil
 		}
-		if p := ev.Try(func() { e.tbl.BalTableReload(op.gl, op.tl) }); p != nil {
+		if p := ev.Try(func() { e.table().BalTableReload(op.gl, op.tl) }); p != nil {
 			return &c05Failure{Key: "panic-table-reload", Msg: fmt.Sprintf("BalTableReload panicked: %v", p)}
 		}
 		// gslbDataConfReload re-applies the server data conf after a reload
 		ct := e.curCT.Load()
-		if p := ev.Try(func() { e.tbl.SetGslbBasic(ct); e.tbl.SetSlowStart(ct) }); p != nil {
+		if p := ev.Try(func() { e.table().SetGslbBasic(ct); e.table().SetSlowStart(ct) }); p != nil {
 			return &c05Failure{Key: "panic-table-setbasic", Msg: fmt.Sprintf("SetGslbBasic/SetSlowStart panicked: %v", p)}
 		}
 	case "basic":
@@ -741,16 +743,16 @@ func (e *c05Env) tblStep(op *c05TblOp, sequential bool) *c05Failure {
 		}
 		// serverDataConfReload: publish the new conf, then push it into the table
 		e.curCT.Store(op.ct)
-		if p := ev.Try(func() { e.tbl.SetGslbBasic(op.ct); e.tbl.SetSlowStart(op.ct) }); p != nil {
+		if p := ev.Try(func() { e.table().SetGslbBasic(op.ct); e.table().SetSlowStart(op.ct) }); p != nil {
 			return &c05Failure{Key: "panic-table-setbasic", Msg: fmt.Sprintf("SetGslbBasic/SetSlowStart panicked: %v", p)}
 		}
 	case "state":
-		if p := ev.Try(func() { e.tbl.GetState(); e.tbl.GetVersions() }); p != nil {
+		if p := ev.Try(func() { e.table().GetState(); e.table().GetVersions() }); p != nil {
 			return &c05Failure{Key: "panic-table-getstate", Msg: fmt.Sprintf("GetState panicked: %v", p)}
 		}
 	case "subnum":
 		// monitor handler BalTableStatusGet: Lookup + SubClusterNum
-		if bal, err := e.tbl.Lookup(op.Cluster); err == nil {
+		if bal, err := e.table().Lookup(op.Cluster); err == nil {
 			bal.SubClusterNum()
 		}
 	case "avail", "conn", "fail", "succ", "restart":
@@ -985,7 +987,7 @@ func TestC05(t *testing.T) {
 	rapid.Check(t, func(rt *rapid.T) {
 		if poisoned {
 			// a previous case left a stuck goroutine inside the process-wide table
-			env.tbl = bfe_balance.NewBalTable(env.fetch)
+			env.tblP.Store(bfe_balance.NewBalTable(env.fetch))
 			poisoned = false
 		}
 		mode := rapid.IntRange(0, 99).Draw(rt, "mode")
@@ -1095,10 +1097,10 @@ func c05InitTable(rt *rapid.T, rec *ev.Rec, env *c05Env, label string) (g gslbCo
 		}
 		initStep = func() *c05Failure {
 			if p := ev.Try(func() {
-				env.tbl.BalTableReload(gl, tl)
+				env.table().BalTableReload(gl, tl)
 				env.curCT.Store(env.basic0)
-				env.tbl.SetGslbBasic(env.basic0)
-				env.tbl.SetSlowStart(env.basic0)
+				env.table().SetGslbBasic(env.basic0)
+				env.table().SetSlowStart(env.basic0)
 			}); p != nil {
 				return &c05Failure{Key: "panic-table-reload", Msg: fmt.Sprintf("initial reload panicked: %v", p)}
 			}
